@@ -78,6 +78,11 @@ def configs(draw, spec):
     for nm in names:
         if draw(st.integers(0, 3)) == 0:
             ov["node"][nm] = some_attrs()
+    if len(ov["node"]) > 1 and draw(st.integers(0, 1)) == 0:
+        # the precedence default -> kind -> name is a rule about the keys, not about the
+        # order in which the caller happened to add them to the dictionary
+        order = draw(st.permutations(sorted(ov["node"])))
+        ov["node"] = {k: ov["node"][k] for k in order}
     if draw(st.integers(0, 2)) == 0:
         ov["cluster"]["default"] = {"fillcolor": draw(st.sampled_from(COLORS))}
     for g in groups:
@@ -120,6 +125,16 @@ def cases(draw, opts):
     if draw(st.integers(0, 7)) == 3:
         spec = nano_power(spec)
         spec["_nano"] = True
+    groups = sorted({n["group"] for n in spec["nodes"] if n["group"]})
+    if groups and draw(st.integers(0, 7)) == 5:
+        # any non-empty string names a group: blanks only, or text with surrounding blanks
+        g = groups[draw(st.integers(0, len(groups) - 1))]
+        new = draw(st.sampled_from([" ", "  ", " " + g, g + " "]))
+        if new not in groups:
+            for n in spec["nodes"]:
+                if n["group"] == g:
+                    n["group"] = new
+            spec["_odd_group"] = True
     return {"spec": spec, "conf": draw(configs(spec))}
 
 
@@ -356,6 +371,8 @@ def body(case, stats):
         if any(attr in ov.get(n["name"], {}) for n in spec["nodes"]):
             lv += 1
         levels = max(levels, lv)
+    if spec.get("_odd_group"):
+        stats.cls("group_name_with_blanks")
     if spec.get("_nano"):
         stats.cls("nano_power_system")
     stats.cls("groups={}".format(min(len(groups), 3)))
